@@ -20,11 +20,13 @@ import (
 	"sort"
 	"strings"
 	"testing"
+	"time"
 
 	sdkmath "cosmossdk.io/math"
 	sdk "github.com/cosmos/cosmos-sdk/types"
 
 	simapp "github.com/provenance-io/provenance/app"
+	"github.com/provenance-io/provenance/x/attribute"
 	attrtypes "github.com/provenance-io/provenance/x/attribute/types"
 	"github.com/provenance-io/provenance/x/exchange"
 )
@@ -469,6 +471,8 @@ func TestC20(t *testing.T) {
 	r := newRand("C20")
 	w := NewCaseWriter("C20", "PV.Corr.C20", "check_all", scale(12, 40))
 	app, baseCtx := newApp(t)
+	t0 := time.Date(2026, 1, 1, 12, 0, 0, 0, time.UTC)
+	baseCtx = baseCtx.WithBlockTime(t0)
 	k := app.ExchangeKeeper
 	authority := k.GetAuthority()
 	type desc map[string]any
@@ -524,6 +528,63 @@ func TestC20(t *testing.T) {
 		accts[i] = c20Acct{addr: a, attrs: c20ReadAttrs(t, app, baseCtx, a)}
 		w.CountN("account_attributes", int64(len(accts[i].attrs)))
 	}
+	// accounts that hold the same attribute name under several values, some of the records with
+	// an expiration date: 1h = passed when the later phases probe, 5h = still in the future
+	type expAttr struct {
+		name, value string
+		hours       int
+	}
+	expSets := [][]expAttr{
+		{{"buyer.kyc.prov", "v1", 1}, {"buyer.kyc.prov", "v2", 0}},
+		{{"buyer.kyc.prov", "v1", 0}, {"buyer.kyc.prov", "v2", 1}},
+		{{"buyer.kyc.prov", "v1", 1}, {"buyer.kyc.prov", "v2", 1}, {"buyer.kyc.prov", "v3", 0}, {"gold.club", "v1", 5}},
+		{{"buyer.kyc.prov", "v1", 0}, {"buyer.kyc.prov", "v3", 1}, {"gold.club", "a", 1}, {"gold.club", "b", 0}},
+		{{"buyer.kyc.prov", "v1", 1}, {"gold.club", "v1", 1}}, // only records that expire
+		{{"special.seller.kyc.prov", "x", 1}, {"special.seller.kyc.prov", "y", 5}, {"vip.gold.club", "x", 0}, {"vip.gold.club", "y", 1}},
+		{{"gold.club", "zz", 0}, {"gold.club", "aa", 1}, {"gold.club", "mm", 1}, {"buyer.xkyc.prov", "q", 1}, {"buyer.xkyc.prov", "r", 0}},
+	}
+	firstExp := nAcct
+	onlyExpiring := firstExp + 4
+	for i, set := range expSets {
+		a := addrN(901 + firstExp + i)
+		ensureAccount(app, baseCtx, a)
+		fund(t, app, baseCtx, a, rich)
+		for _, e := range set {
+			attr := attrtypes.Attribute{Name: e.name, Value: []byte(e.value), AttributeType: attrtypes.AttributeType_String, Address: a.String()}
+			if e.hours > 0 {
+				exp := t0.Add(time.Duration(e.hours) * time.Hour)
+				attr.ExpirationDate = &exp
+			}
+			if err := app.AttributeKeeper.SetAttribute(baseCtx, attr, owner); err != nil {
+				t.Fatalf("SetAttribute(%q,%q): %v", e.name, e.value, err)
+			}
+		}
+		accts = append(accts, c20Acct{addr: a})
+	}
+	nAcct = len(accts)
+	// The three situations in which admission is probed: at the time the attributes were set; two
+	// hours later without the attribute module's begin-blocker having run (expired records are
+	// still stored); two hours later after it ran (expired records purged).  The model is told
+	// what AttributeKeeper.GetAllAttributesAddr returns in that situation.
+	later := baseCtx.WithBlockTime(t0.Add(2 * time.Hour))
+	swept, _ := later.CacheContext()
+	attribute.BeginBlocker(swept, app.AttributeKeeper)
+	phaseNames := []string{"at_set_time", "expired_not_swept", "expired_swept"}
+	phaseCtxs := []sdk.Context{baseCtx, later, swept}
+	phaseAccts := make([][]c20Acct, 3)
+	for ph := range phaseCtxs {
+		phaseAccts[ph] = make([]c20Acct, nAcct)
+		for i, a := range accts {
+			phaseAccts[ph][i] = c20Acct{addr: a.addr, attrs: c20ReadAttrs(t, app, phaseCtxs[ph], a.addr)}
+		}
+		w.CountN("attribute_records_"+phaseNames[ph], func() int64 {
+			n := 0
+			for _, a := range phaseAccts[ph][firstExp:] {
+				n += len(a.attrs)
+			}
+			return int64(n)
+		}())
+	}
 	maker := addrN(950)
 	ensureAccount(app, baseCtx, maker)
 	fund(t, app, baseCtx, maker, rich)
@@ -536,6 +597,8 @@ func TestC20(t *testing.T) {
 			return accts[0]
 		case 3, 4, 5:
 			return accts[1+r.Intn(1+len(c20SmallSets))] // none, one or two attributes
+		case 6, 7:
+			return accts[firstExp+r.Intn(nAcct-firstExp)] // repeated names, expiring records
 		}
 		return accts[r.Intn(nAcct)]
 	}
@@ -545,7 +608,10 @@ func TestC20(t *testing.T) {
 	nMarkets := scale(70, 2500)
 	for mi := 0; mi < nMarkets; mi++ {
 		m := c20GenMarket(r, w)
-		mctx, _ := baseCtx.CacheContext()
+		ph := mi % 3
+		accts = phaseAccts[ph]
+		w.Count("markets_probed_" + phaseNames[ph])
+		mctx, _ := phaseCtxs[ph].CacheContext()
 		lastBefore := uint32(0)
 		k.IterateKnownMarketIDs(mctx, func(id uint32) bool {
 			if id > lastBefore {
@@ -786,6 +852,9 @@ func TestC20(t *testing.T) {
 				w.Count("can_create_probes")
 				if ok {
 					w.Count("can_create_probes_allowed")
+					if created && len(ck.reqs) > 0 && ph == 1 && a.addr.Equals(accts[onlyExpiring].addr) {
+						w.Count("observation_allowed_on_expired_unswept_records_only")
+					}
 					if len(ck.reqs) > 0 && len(a.attrs) < len(ck.reqs) {
 						w.Count("can_create_allowed_with_fewer_attrs_than_reqs_" + ck.name)
 					}
@@ -988,12 +1057,145 @@ func TestC20(t *testing.T) {
 			}
 		} // phase
 
+		// ---- sequences: the same account acts again after it already has a commitment / orders ----
+		// Successful requests are kept (sctx), so later requests of the sequence meet the records
+		// the earlier ones left.  The admission rule does not depend on them.
+		if created {
+			sctx, _ := mctx.CacheContext()
+			toPtr := func(c *c20Coin) *sdk.Coin {
+				if c == nil {
+					return nil
+				}
+				sc := c.sdk()
+				return &sc
+			}
+			seqProbe := func(a c20Acct, msg sdk.Msg, term string, d desc, tag string) bool {
+				cctx, write := sctx.CacheContext()
+				e := handle(cctx, msg)
+				if e == nil {
+					write()
+				}
+				d["probe"], d["account_attrs"], d["ok"], d["sequence"] = "handler", a.attrs, e == nil, tag
+				addProbe("PAct "+c20CoqStrs(a.attrs)+" ("+term+") "+coqBool(e == nil), d)
+				w.Count("sequence_probes")
+				w.Count("sequence_" + tag)
+				if e == nil {
+					w.Count("sequence_probes_accepted")
+					w.Count("sequence_" + tag + "_accepted")
+				}
+				probeKey(fmt.Sprintf("seq/%d/%d", mi, len(probes)))
+				return e == nil
+			}
+			// the fee variants offered after the first (paid) request
+			variants := func(opts []c20Coin) []*c20Coin {
+				out := []*c20Coin{nil}
+				if len(opts) > 0 {
+					o := opts[r.Intn(len(opts))]
+					if o.A.Cmp(c20Big(1)) > 0 {
+						out = append(out, &c20Coin{o.D, new(big.Int).Sub(o.A, c20Big(1))})
+					}
+					out = append(out, &c20Coin{o.D, new(big.Int).Set(o.A)})
+				}
+				return out
+			}
+			exact := func(opts []c20Coin) *c20Coin {
+				if len(opts) == 0 {
+					return nil
+				}
+				o := opts[r.Intn(len(opts))]
+				return &c20Coin{o.D, new(big.Int).Set(o.A)}
+			}
+			commit := func(a c20Acct, cfee *c20Coin, tag string) bool {
+				msg := &exchange.MsgCommitFundsRequest{Account: a.addr.String(), MarketId: marketID,
+					Amount: sdk.NewCoins(sdk.NewInt64Coin("ccoin", r.Int63n(1000)+1)), CreationFee: toPtr(cfee)}
+				return seqProbe(a, msg, "ACommit "+c20CoqOptCoin(cfee), desc{"msg": "MsgCommitFunds", "creation_fee": c20OptStr(cfee)}, tag)
+			}
+			ask := func(a c20Acct, cfee *c20Coin, tag string) bool {
+				pd := c20PriceDenoms[r.Intn(len(c20PriceDenoms))]
+				if len(m.SellerRatios) > 0 {
+					pd = m.SellerRatios[r.Intn(len(m.SellerRatios))].PD
+				}
+				price := c20Coin{pd, new(big.Int).Add(pow2(68), c20Big(r.Int63n(1_000_000)))}
+				sflat := exact(m.SellerFlat)
+				msg := &exchange.MsgCreateAskRequest{
+					AskOrder:         exchange.AskOrder{MarketId: marketID, Seller: a.addr.String(), Assets: assets, Price: price.sdk(), SellerSettlementFlatFee: toPtr(sflat)},
+					OrderCreationFee: toPtr(cfee)}
+				return seqProbe(a, msg, "ACreateAsk "+price.coq()+" "+c20CoqOptCoin(sflat)+" "+c20CoqOptCoin(cfee),
+					desc{"msg": "MsgCreateAsk", "price": price.String(), "seller_settlement_flat_fee": c20OptStr(sflat), "creation_fee": c20OptStr(cfee)}, tag)
+			}
+			bid := func(a c20Acct, cfee *c20Coin, tag string) bool {
+				pd := c20PriceDenoms[r.Intn(len(c20PriceDenoms))]
+				if len(m.BuyerRatios) > 0 {
+					pd = m.BuyerRatios[r.Intn(len(m.BuyerRatios))].PD
+				}
+				price := c20Coin{pd, c20Big(r.Int63n(1_000_000) + 1)}
+				fees := c20BuyerFees(r, m, price, true)
+				msg := &exchange.MsgCreateBidRequest{
+					BidOrder:         exchange.BidOrder{MarketId: marketID, Buyer: a.addr.String(), Assets: assets, Price: price.sdk(), BuyerSettlementFees: sdk.NewCoins(c20Coins(fees)...)},
+					OrderCreationFee: toPtr(cfee)}
+				return seqProbe(a, msg, "ACreateBid "+price.coq()+" "+c20CoqCoins(fees)+" "+c20CoqOptCoin(cfee),
+					desc{"msg": "MsgCreateBid", "price": price.String(), "buyer_settlement_fees": c20StrCoins(fees), "creation_fee": c20OptStr(cfee)}, tag)
+			}
+			type seqKind struct {
+				name string
+				opts []c20Coin
+				f    func(c20Acct, *c20Coin, string) bool
+			}
+			for _, sk := range []seqKind{{"commit", m.CreateCom, commit}, {"ask", m.CreateAsk, ask}, {"bid", m.CreateBid, bid}} {
+				a := accts[0] // holds every name: the first request is normally admitted
+				if r.Intn(3) == 0 {
+					a = pickAcct()
+				}
+				first := sk.f(a, exact(sk.opts), sk.name+"_first_paid")
+				for _, v := range variants(sk.opts) {
+					tag := sk.name + "_again"
+					if first {
+						tag = sk.name + "_again_with_existing_record"
+						if v == nil && len(sk.opts) > 0 {
+							tag += "_no_fee"
+						}
+					}
+					sk.f(a, v, tag)
+				}
+			}
+			// an account that got its commitment from a commitment settlement (never paid a fee)
+			if m.AccCommit {
+				src, dst := accts[0], accts[2+r.Intn(len(c20SmallSets))]
+				amt := sdk.NewCoins(sdk.NewInt64Coin("ccoin", 50))
+				for i := 0; i < 3 && k.GetCommitmentAmount(sctx, marketID, src.addr).AmountOf("ccoin").LT(sdkmath.NewInt(50)); i++ {
+					if !commit(src, exact(m.CreateCom), "commit_source_paid") {
+						break
+					}
+				}
+				had := !k.GetCommitmentAmount(sctx, marketID, dst.addr).IsZero()
+				if !k.GetCommitmentAmount(sctx, marketID, src.addr).AmountOf("ccoin").LT(sdkmath.NewInt(50)) && !had {
+					e := try(func() error {
+						return k.SettleCommitments(sctx, &exchange.MsgMarketCommitmentSettleRequest{Admin: maker.String(), MarketId: marketID,
+							Inputs:  []exchange.AccountAmount{{Account: src.addr.String(), Amount: amt}},
+							Outputs: []exchange.AccountAmount{{Account: dst.addr.String(), Amount: amt}}})
+					})
+					if e == nil && !k.GetCommitmentAmount(sctx, marketID, dst.addr).IsZero() {
+						w.Count("commitment_settlements")
+						for _, v := range variants(m.CreateCom) {
+							tag := "commit_after_settlement_output"
+							if v == nil && len(m.CreateCom) > 0 {
+								tag += "_no_fee"
+							}
+							commit(dst, v, tag)
+						}
+					} else {
+						w.Count("commitment_settlement_failed")
+					}
+				}
+			}
+		}
+
 		if created && len(m0.CreateAsk)+len(m0.CreateBid)+len(m0.CreateCom)+len(m0.SellerFlat)+len(m0.BuyerFlat)+len(m0.BuyerRatios) > 0 &&
 			len(m0.ReqAsk)+len(m0.ReqBid)+len(m0.ReqCom) > 0 {
 			w.Nontrivial(m0.coq())
 		}
 		w.Add("CMarket "+m0.coq()+" "+coqBool(created)+" "+coqList(probes),
-			desc{"market": m0.desc(), "created": created, "probes": pdescs})
+			desc{"market": m0.desc(), "created": created, "attribute_phase": phaseNames[ph], "probes": pdescs})
 		if mi%(nMarkets/4+1) == 0 { // evidence samples: the market and a few of its probes
 			var few []desc
 			for i := 0; i < len(pdescs); i += len(pdescs)/5 + 1 {
